@@ -712,12 +712,14 @@ func init() {
 }
 
 // c05poolFacts: the trust anchors of the pools assigned to RootCAs / ClientCAs in Config.addCaCertificates.
-//   caPoolInit    what the pool variable(s) are initialised / re-assigned with (sorted, distinct); a variable that is
-//                 not declared inside the function shows as "<outer> name"
-//   caPoolAdds    every call that can put certificates into such a pool: its methods called, and calls that receive it
-//   caPoolPemFrom what the argument(s) of AppendCertsFromPEM are bound to
-//   caPoolStartsEmpty  the pool is a function-local x509.NewCertPool() to which only the PEM returned by
-//                 m.GetCaCertificates() is appended: the pool holds the configured CA certificates and nothing else
+//
+//	caPoolInit    what the pool variable(s) are initialised / re-assigned with (sorted, distinct); a variable that is
+//	              not declared inside the function shows as "<outer> name"
+//	caPoolAdds    every call that can put certificates into such a pool: its methods called, and calls that receive it
+//	caPoolPemFrom what the argument(s) of AppendCertsFromPEM are bound to
+//	caPoolStartsEmpty  the pool is a function-local x509.NewCertPool() to which only the PEM returned by
+//	              m.GetCaCertificates() is appended: the pool holds the configured CA certificates and nothing else
+//
 // A pool that is the result of a function of cert.go (`pool, err := newCertPool(pem)`) is followed into that function
 // (two levels): the facts are then about the variable(s) that function returns, its parameters resolved to the
 // arguments of the call.  So the facts say the same whether the pool is built in place or in a helper.
